@@ -160,10 +160,10 @@ theorem slot_stack_restored (W : World) (f : Nat) (ctx : Ctx) (st st' : St) (att
 
 /-- (5) which content a name gets: children that are not `<template v-slot…>` go to the unnamed slot … -/
 theorem default_slot_collects_plain_children (kids : List Node)
-    (h : ∀ k ∈ kids, match k with | .elem tag attrs _ => ¬ (tag = S "template" ∧ hasVSlot attrs = true) | .text d => trimSpace d ≠ [] | _ => False)
+    (h : ∀ k ∈ kids, match k with | .elem tag attrs _ => ¬ (tag = S "template" ∧ hasVSlot attrs = true) | .text d => blankText d = false | _ => False)
     (hne : kids ≠ []) :
     extractSlotContent kids = [(S "default", { nodes := kids, tmpl := none })] := by
-  have key : ∀ (ks acc : List Node), (∀ k ∈ ks, match k with | .elem tag attrs _ => ¬ (tag = S "template" ∧ hasVSlot attrs = true) | .text d => trimSpace d ≠ [] | _ => False) →
+  have key : ∀ (ks acc : List Node), (∀ k ∈ ks, match k with | .elem tag attrs _ => ¬ (tag = S "template" ∧ hasVSlot attrs = true) | .text d => blankText d = false | _ => False) →
       ks.foldl slotStep (([] : SlotScope), acc) = ([], acc ++ ks) := by
     intro ks
     induction ks with
@@ -175,8 +175,7 @@ theorem default_slot_collects_plain_children (kids : List Node)
       cases k with
       | text d =>
         simp only [] at hk
-        have : (trimSpace d != []) = true := by simpa using hk
-        simp only [List.foldl_cons, slotStep, this, ↓reduceIte]
+        simp only [List.foldl_cons, slotStep, hk, Bool.not_false, ↓reduceIte]
         rw [ih _ hr]; simp
       | elem tag attrs ks' =>
         simp only [] at hk
